@@ -60,7 +60,8 @@ def w1_source(p):
     a.append(f"    bs: {p['bs_ann']} = Field(default_factory={'dict' if p['bs_ann'].startswith('Dict') else 'list'})")
     if p.get("constrained"):
         a.append("    pb: 'B' = Field(required=False, description='with field config')")
-    b = ["class B(Schema):", "    y: int = Field(ge=0)", "    a: Optional['A'] = None"]
+    b = ["class B(Schema):", "    y: int = Field(ge=0)", "    a: Optional['A'] = None", "",
+         "class Q(Schema):", "    q: int = 0", "    m: Optional['Missing'] = None      # a name that never exists: every first use fails"]
     f = ["@utype.parse", "def f(a: 'A', n: int = 0) -> 'B':", "    return {'y': a.x + n}"]
     if p.get("b_ann") == "Optional[B]":
         order = [b, a, f]   # direct reference: B must exist first (control scenario, nothing pending in A)
@@ -266,7 +267,10 @@ def _gen_ops_w1(rng, params, n):
     ops = []
     for _ in range(n):
         r = rng.random()
-        if r < 0.35:
+        if r < 0.08:
+            # a first use that fails (unresolvable name): it must not take anything with it that others need
+            ops.append({"op": "init", "cls": "Q", "data": {"q": 1}})
+        elif r < 0.35:
             d = {"x": rng.choice([1, "2", 3])}
             if rng.random() < 0.7:
                 d["b"] = {"y": rng.choice([1, "2", -1])}
